@@ -6,8 +6,33 @@ from . import core
 from .core import ToolError, log
 
 
+CURRENT = None      # the check in progress (see `salvage`)
+
+
+def salvage(err):
+    """A stage failed as a tool error after earlier stages had already found violations (typically: the changed code also
+    produces data a later stage cannot digest).  The violations found stand: report them, exit 1, and say that the check is
+    incomplete.  No evidence file is written."""
+    ck = CURRENT
+    if ck is None or not ck.violations:
+        return None
+    from . import findings
+    known = [k for k in core.load_known() if k.get("property") == ck.prop and k.get("status") == "known"]
+    new = [v for v in ck.violations if not findings.match(v, known)]
+    if not new:
+        return None
+    log("[%s] a later stage failed as a tool error (%s); the %d violation(s) found before it stand" % (ck.prop, str(err).splitlines()[0][:200], len(new)))
+    for v in new[:10]:
+        p = core.save_replay(ck.prop, v["stage"], dict(v["payload"], what=v["what"]))
+        print("VIOLATION property=%s replay=%s" % (ck.prop, p))
+        log("  -> %s: %s" % (v["stage"], v["what"]))
+    return 1
+
+
 class Check:
     def __init__(self, prop, tier, seed):
+        global CURRENT
+        CURRENT = self
         self.prop, self.tier, self.seed = prop, tier, seed
         self.t0 = time.time()
         self.stages = []          # dicts with per-stage statistics
